@@ -6,7 +6,8 @@
    Every theorem is for ALL carriers T with a total order `cmp` (the sign of lp_value_cmp on the denoted
    numbers; -inf and +inf are the carrier values minf / pinf) and for lists of intervals of ANY length. *)
 From Coq Require Import ZArith List Bool Permutation Sorted.
-From LP Require Import Scalar FeasSet FeasSetSpec FeasSetProofs.
+From Coq Require Import Qcanon.
+From LP Require Import Scalar FeasSet FeasSetSpec FeasSetProofs FeasSetDense FeasSetTransfer.
 Import ListNotations.
 
 (* ---- 1. lp_interval_cmp / lp_interval_cmp_with_intersect classify every pair of intervals *)
@@ -122,17 +123,32 @@ Theorem C13_is_empty_complete : forall (T : Type) (cmp : T -> T -> comparison), 
 Proof. exact @is_empty_dense. Qed.
 Print Assumptions C13_is_empty_complete.
 
+(* is_full: every real number (value strictly between the infinities) is a member ... *)
 Theorem C13_is_full_sound : forall (T : Type) (cmp : T -> T -> comparison), total_order cmp ->
   forall (minf pinf : T) (s : list (itv T)), fs_is_full cmp minf pinf s = true ->
   forall v : T, finite cmp minf pinf v -> mem_set cmp v s.
 Proof. exact @is_full_mem. Qed.
 Print Assumptions C13_is_full_sound.
+(* ... and conversely on a dense carrier with -inf least, +inf greatest and no least / greatest finite value
+   (the real line; C13_dense_bounded_carrier_exists), a normal-form list containing every real is (-inf, +inf) *)
+Theorem C13_is_full_complete : forall (T : Type) (cmp : T -> T -> comparison), total_order cmp ->
+  forall (minf pinf : T) (s : list (itv T)), dense cmp -> bounds cmp minf pinf -> NF cmp s ->
+  (forall v : T, finite cmp minf pinf v -> mem_set cmp v s) -> fs_is_full cmp minf pinf s = true.
+Proof. exact @is_full_dense. Qed.
+Print Assumptions C13_is_full_complete.
 
+(* is_point: the set is a singleton ... *)
 Theorem C13_is_point_sound : forall (T : Type) (cmp : T -> T -> comparison), total_order cmp ->
   forall s : list (itv T), NF cmp s -> fs_is_point s = true ->
   exists a : T, forall v : T, mem_set cmp v s <-> v = a.
 Proof. exact @is_point_spec. Qed.
 Print Assumptions C13_is_point_sound.
+(* ... and conversely on a dense carrier *)
+Theorem C13_is_point_complete : forall (T : Type) (cmp : T -> T -> comparison), total_order cmp ->
+  forall s : list (itv T), dense cmp -> NF cmp s ->
+  (exists a : T, forall v : T, mem_set cmp v s <-> v = a) -> fs_is_point s = true.
+Proof. exact @is_point_dense. Qed.
+Print Assumptions C13_is_point_complete.
 
 (* lp_feasibility_set_to_interval: no assertion fails on a non-empty set, the result is a well-formed
    interval that contains the whole set and starts exactly where the set starts *)
@@ -143,10 +159,113 @@ Theorem C13_to_interval : forall (T : Type) (cmp : T -> T -> comparison), total_
 Proof. exact @to_interval_spec. Qed.
 Print Assumptions C13_to_interval.
 
-(* ---- 6. the carrier the drivers run the model on *)
+(* ---- 6. integer queries (end points: rationals in lowest terms, -inf, +inf) *)
+(* lp_interval_contains_int answers whether some integer belongs to the interval *)
+Theorem C13_contains_int : forall X : itv xq, WFx X ->
+  (itv_contains_int X = true <-> exists z : Z, int_mem z X).
+Proof. exact itv_contains_int_spec. Qed.
+Print Assumptions C13_contains_int.
+
+(* lp_interval_count_int: a value below LONG_MAX is the exact number of integers in the interval (they form the
+   range lo .. lo+count-1); LONG_MAX means that there are at least LONG_MAX of them (model of the code with
+   fixes/C13-count-int-signed-overflow.patch, which computes the same values without signed overflow) *)
+Theorem C13_count_int : forall X : itv xq, WFx X ->
+  (0 <= itv_count_int X <= LONG_MAX)%Z /\
+  ((itv_count_int X < LONG_MAX)%Z -> exists lo : Z, forall z : Z, int_mem z X <-> (lo <= z < lo + itv_count_int X)%Z) /\
+  (itv_count_int X = LONG_MAX -> exists lo : Z, forall z : Z, (lo <= z < lo + LONG_MAX)%Z -> int_mem z X).
+Proof. exact itv_count_int_spec. Qed.
+Print Assumptions C13_count_int.
+
+(* lp_feasibility_set_contains_int *)
+Theorem C13_contains_int_set : forall s : list (itv xq), Forall WFx s ->
+  (xs_contains_int s = true <-> exists z : Z, int_mem_set z s).
+Proof. exact xs_contains_int_spec. Qed.
+Print Assumptions C13_contains_int_set.
+
+(* lp_feasibility_set_count_int / _is_point_int: PARTIAL.  Proved: the result is the saturating sum of the exact
+   per-interval counts (C13_count_int), resp. the test "that sum is 1".  Not proved: that for a normal-form set
+   (pairwise disjoint intervals) this sum is the cardinality of the set of integers in the set. *)
+Theorem C13_count_int_set_partial : forall s : list (itv xq), Forall WFx s ->
+  (0 <= xs_count_int s <= LONG_MAX)%Z /\
+  ((xs_count_int s < LONG_MAX)%Z -> xs_count_int s = sum_counts s) /\
+  (xs_count_int s = LONG_MAX -> (LONG_MAX <= sum_counts s)%Z).
+Proof. exact xs_count_int_sum. Qed.
+Print Assumptions C13_count_int_set_partial.
+Definition C13_count_int_set_full_statement : Prop :=
+  forall s : list (itv xq), NF xq_cmp s -> Forall WFx s -> (xs_count_int s < LONG_MAX)%Z ->
+  exists l : list Z, NoDup l /\ (forall z, In z l <-> int_mem_set z s) /\ Z.of_nat (length l) = xs_count_int s.
+
+Theorem C13_is_point_int_partial : forall s : list (itv xq), Forall WFx s ->
+  (xs_is_point_int s = true <-> sum_counts s = 1%Z).
+Proof. exact xs_is_point_int_sum. Qed.
+Print Assumptions C13_is_point_int_partial.
+Definition C13_is_point_int_full_statement : Prop :=
+  forall s : list (itv xq), NF xq_cmp s -> Forall WFx s ->
+  (xs_is_point_int s = true <-> exists z, int_mem_set z s /\ forall z', int_mem_set z' s -> z' = z).
+
+(* lp_feasibility_set_pick_value / lp_interval_pick_value are not modelled (any member will do): the
+   implementation's value is CHECKED by xs_pick_ok, and the checker accepts exactly the members of the set that
+   are integers whenever the set contains an integer *)
+Theorem C13_pick_value_checker : forall (s : list (itv xq)) (v : xq), Forall WFx s ->
+  (xs_pick_ok s v = true <->
+   mem_set xq_cmp v s /\ ((exists z : Z, int_mem_set z s) -> xq_is_integer v = true)).
+Proof. exact xs_pick_ok_spec. Qed.
+Print Assumptions C13_pick_value_checker.
+
+(* the membership checker used on the mixed-kind pool (ranks) *)
+Theorem C13_pick_value_checker_ranks : forall (s : list (itv Z)) (v : Z), NF Z.compare s ->
+  (rk_pick_ok s v = true <-> mem_set Z.compare v s).
+Proof. exact rk_pick_ok_spec. Qed.
+Print Assumptions C13_pick_value_checker_ranks.
+
+(* ---- 7. the carrier the drivers run the model on *)
 Theorem C13_ranks_total_order : total_order Z.compare.
 Proof. exact Z_total_order. Qed.
 Print Assumptions C13_ranks_total_order.
+
+(* ---- 8. why ranks suffice: every order-only operation commutes with any comparison-preserving map f between
+   carriers (COND: the premise is spelled out; for f = "pool rank -> pool value" it is property C08's claim
+   that lp_value_cmp is the order of the denoted numbers, asserted by the harness for the pool at start-up).
+   Hence the interval lists, statuses and membership answers computed on ranks are the images of those
+   computed on the values themselves. *)
+Theorem C13_rank_transfer_cmp_cond : forall (T T' : Type) (cmp : T -> T -> comparison) (cmp' : T' -> T' -> comparison)
+  (f : T -> T'), (forall x y, cmp' (f x) (f y) = cmp x y) ->
+  forall (w : bool) (X Y : itv T),
+  cmp_with_intersect cmp' w (map_itv f X) (map_itv f Y) = map_res f (cmp_with_intersect cmp w X Y).
+Proof. exact @tr_cmp_with_intersect. Qed.
+Print Assumptions C13_rank_transfer_cmp_cond.
+
+Theorem C13_rank_transfer_intersect_cond : forall (T T' : Type) (cmp : T -> T -> comparison) (cmp' : T' -> T' -> comparison)
+  (f : T -> T'), (forall x y, cmp' (f x) (f y) = cmp x y) ->
+  forall s1 s2 : list (itv T),
+  fs_intersect cmp' (map (map_itv f) s1) (map (map_itv f) s2) = map_isect f (fs_intersect cmp s1 s2).
+Proof. exact @tr_intersect. Qed.
+Print Assumptions C13_rank_transfer_intersect_cond.
+
+Theorem C13_rank_transfer_union_cond : forall (T T' : Type) (cmp : T -> T -> comparison) (cmp' : T' -> T' -> comparison)
+  (f : T -> T'), (forall x y, cmp' (f x) (f y) = cmp x y) ->
+  forall (minf pinf : T) (s from : list (itv T)),
+  fs_add cmp' (f minf) (f pinf) (map (map_itv f) s) (map (map_itv f) from) =
+  option_map (map (map_itv f)) (fs_add cmp minf pinf s from).
+Proof. exact @tr_add. Qed.
+Print Assumptions C13_rank_transfer_union_cond.
+
+Theorem C13_rank_transfer_contains_cond : forall (T T' : Type) (cmp : T -> T -> comparison) (cmp' : T' -> T' -> comparison)
+  (f : T -> T'), (forall x y, cmp' (f x) (f y) = cmp x y) ->
+  forall (s : list (itv T)) (v : T),
+  fs_contains cmp' (map (map_itv f) s) (f v) = fs_contains cmp s v.
+Proof. exact @tr_contains. Qed.
+Print Assumptions C13_rank_transfer_contains_cond.
+
+(* a dense carrier exists (the `dense` premise of C13_is_empty_complete is satisfiable): canonical rationals *)
+Theorem C13_dense_carrier_exists : total_order Qccompare /\ dense Qccompare.
+Proof. exact (conj Qc_total_order Qc_dense). Qed.
+Print Assumptions C13_dense_carrier_exists.
+
+(* ... and one with -inf / +inf (the premises of C13_is_full_complete are satisfiable) *)
+Theorem C13_dense_bounded_carrier_exists : total_order xqc_cmp /\ dense xqc_cmp /\ bounds xqc_cmp CMinf CPinf.
+Proof. exact (conj xqc_total_order (conj xqc_dense xqc_bounds)). Qed.
+Print Assumptions C13_dense_bounded_carrier_exists.
 
 (* ---- non-vacuity: concrete well-formed intervals and normal-form sets on ranks, and what the model computes *)
 Definition ex_s1 : list (itv Z) := [mkItv 0%Z 3%Z true false false; mkItv 5%Z 5%Z false false true; mkItv 7%Z 9%Z false true false].
@@ -173,3 +292,20 @@ Example ex_qsorted : qsorted Z.compare [mkItv 3%Z 5%Z false true false; mkItv 3%
 Proof.
   unfold qsorted. repeat constructor; eexists; (split; [vm_compute; reflexivity | discriminate]).
 Qed.
+
+(* rational end points: [0, 7/3) {5/2} (7/2, +inf) *)
+Definition ex_q : list (itv xq) :=
+  [mkItv (XFin (0, 1)%Z) (XFin (7, 3)%Z) false true false; mkItv (XFin (5, 2)%Z) (XFin (5, 2)%Z) false false true;
+   mkItv (XFin (7, 2)%Z) XPinf true true false].
+Example ex_q_WFx : Forall WFx ex_q.
+Proof. repeat constructor; cbn; auto; try discriminate. Qed.
+Example ex_q_NF : NF xq_cmp ex_q.
+Proof. cbn. unfold WF, sep, lt; cbn. intuition. Qed.
+Example ex_q_counts : map itv_count_int ex_q = [3%Z; 0%Z; LONG_MAX] /\ xs_contains_int ex_q = true /\
+                      xs_pick_ok ex_q (XFin (5, 1)%Z) = true /\ xs_pick_ok ex_q (XFin (5, 2)%Z) = false.
+Proof. vm_compute. auto. Qed.
+
+(* the premise of the rank-transfer theorems is satisfiable: doubling ranks (what the model driver does to give
+   values strictly between two pool values a rank of their own) *)
+Example ex_transfer_premise : forall x y : Z, Z.compare (2 * x) (2 * y) = Z.compare x y.
+Proof. intros x y. destruct x, y; reflexivity. Qed.
